@@ -10,12 +10,15 @@ func init() {
 	verifHarnesses["HarnessC06Crash"] = HarnessC06Crash
 }
 
-func verifC06Rows() []map[string]string {
+func verifC06Rows() []map[string]string { return verifC06RowsN(16) }
+
+// verifC06RowsN: 63 rows x ncols columns, every (column,value) pair distinct per row
+func verifC06RowsN(ncols int) []map[string]string {
 	var rows []map[string]string
 	for r := 0; r < 63; r++ {
 		m := map[string]string{}
-		for c := 0; c < 16; c++ {
-			col := string([]byte{'c', byte('a' + c)})
+		for c := 0; c < ncols; c++ {
+			col := string([]byte{'c', byte('a' + c/26), byte('a' + c%26)})
 			m[col] = string([]byte{'v', byte('0' + r/10), byte('0' + r%10)})
 		}
 		rows = append(rows, m)
@@ -26,9 +29,15 @@ func verifC06Rows() []map[string]string {
 func HarnessC06Crash() {
 	path := verifTempPath("c06.updog")
 	rows := verifC06Rows()
-	small := verifBool("small")
-	if small {
+	ncols := 16
+	switch verifChoice("size", 3) {
+	case 0:
 		rows = rows[:3] // a single batch
+	case 2:
+		// 5040 values, ~100 KB of keys and bitmaps: several batches and beyond the 64 KiB
+		// transaction size tools such as bbolt's Compact use
+		ncols = 80
+		rows = verifC06RowsN(ncols)
 	}
 	big := verifBool("big-writer")
 	var w verifWriter
@@ -95,10 +104,10 @@ func HarnessC06Crash() {
 			}
 		}
 	}
-	res, err := idx.Execute(&Query{Expr: &ExprNot{Expr: &ExprEqual{Column: "ca", Value: "nope"}}})
+	res, err := idx.Execute(&Query{Expr: &ExprNot{Expr: &ExprEqual{Column: "caa", Value: "nope"}}})
 	verifAssert(err == nil && res.Count == uint64(len(rows)), "C06: a partially written file was accepted with a wrong row universe")
 	sch := idx.GetSchema()
-	verifAssert(len(sch.Columns) == 16, "C06: a partially written file was accepted with an incomplete schema")
+	verifAssert(len(sch.Columns) == ncols, "C06: a partially written file was accepted with an incomplete schema")
 	for _, c := range sch.Columns {
 		verifAssert(len(c.Values) == len(rows), "C06: a partially written file was accepted with an incomplete schema")
 	}
